@@ -139,7 +139,7 @@ def render(h: tuple[Cls, ...], u: str, split: bool | str) -> dict[str, str]:
         bases = "(" + ", ".join(base_names) + ")" if base_names else ""
         body = []
         for m in c.methods:
-            body.append((f"    @property\n" if m.startswith("p") else "") + f"    def {m}{u}(self) -> {TYPES[i]}:\n        ...\n")
+            body.append((f"    @property\n" if m.startswith("p") else "") + f"    def {m}_{u}(self) -> {TYPES[i]}:\n        ...\n")
         if "private_method" in c.extras:
             body.append(f"    def _pm{u}x{i}(self) -> int:\n        ...\n")
         if "property" in c.extras:
@@ -240,7 +240,7 @@ def run(rep: Report, tier: str, seed: int) -> None:
             units.append((u3, h, family + ":same", "same"))
     rep.rule = (
         f"all class hierarchies of <= {3 if tier == 'quick' else 4} classes (each public/private, ordered base lists of size <= 2 over earlier classes, method subsets of {{m1,m2}} with a distinct return type per definer) that have a consistent MRO and a public class with a private base;"
-        " 4-5 class chains, forks, diamonds, ladders under all privacy assignments x 3 method placements; abstract public classes (ABC next to the other bases) over a chain, a fork and a diamond; a property defined by every non-empty subset of the classes of a 2/3-chain, a fork and a diamond under all privacy assignments; private bases with private method / property / static / class method / nested class; private bases in a second module; private bases that carry the same class names in every module; the 'extras' family also under naming conversion; one hierarchy per module; distinct = distinct hierarchy"
+        " 4-5 class chains, forks, diamonds, ladders under all privacy assignments x 3 method placements; abstract public classes (ABC next to the other bases) over a chain, a fork and a diamond; a property defined by every non-empty subset of the classes of a 2/3-chain, a fork and a diamond under all privacy assignments; private bases with private method / property / static / class method / nested class; private bases in a second module; private bases that carry the same class names in every module; the 'extras' family and all hierarchies of <= 3 classes also under naming conversion (method names contain an underscore); one hierarchy per module; distinct = distinct hierarchy"
     )
 
     def label(h, family) -> str:
@@ -283,7 +283,7 @@ def run(rep: Report, tier: str, seed: int) -> None:
                 else:
                     rep.ok("member-once")
                 for m, definers in required.items():
-                    nm = f"{m}{u}"
+                    nm = f"{m}_{u}"  # (with an underscore: a name that the naming conversion changes)
                     is_prop = m.startswith("p")
                     shown = [x for x in d.members if x.py_name == nm and x.kind == ("attr" if is_prop else "fun")]
                     if not shown:
@@ -370,7 +370,7 @@ def run(rep: Report, tier: str, seed: int) -> None:
     # equally named private classes make the analyser's name-keyed tables grow with the number of modules: small runs
     groups = [(plain[i : i + 500], Opts()) for i in range(0, len(plain), 500)] + [(same[i : i + 12], Opts()) for i in range(0, len(same), 12)]
     # private members of private bases must stay out under naming conversion too (converted names lose their underscore)
-    extras_units = [x for x in plain if x[2].startswith("extras")]
+    extras_units = [x for x in plain if x[2].startswith("extras") or (x[2] in ("full", "pchain2", "pchain3", "pfork3", "abstract") and len(x[1]) <= 3)]
     groups += [(extras_units[i : i + 500], Opts(convert=True)) for i in range(0, len(extras_units), 500)]
     run_packed(groups, build, on_group, stats)
     rep.extra.update(stats)
